@@ -23,6 +23,10 @@ namespace smt
         while (sat->decision_level() > bt_level)
             sat->pop();
 
+#ifdef ORATIO_VERIF
+        if (sat->root_level())
+            ORATIO_VERIF_CLAUSE(*sat, cnfl, verif::THEORY_ROOT_CONFLICT);
+#endif
         if (sat->root_level())
             return sat->new_clause(cnfl) && sat->propagate();
 
@@ -33,6 +37,7 @@ namespace smt
 
     void theory::analyze_and_backjump() noexcept
     {
+        ORATIO_VERIF_CLAUSE(*sat, cnfl, verif::THEORY_CONFLICT);
         // we create a conflict clause for the analysis..
         clause cnfl_cl(*sat, std::move(cnfl));
 
@@ -45,8 +50,17 @@ namespace smt
         // we backjump..
         while (sat->decision_level() > bt_level)
             sat->pop();
+        ORATIO_VERIF_CLAUSE(*sat, no_good, verif::CONFLICT);
         // .. and record the no-good..
         sat->record(no_good);
     }
+#ifdef ORATIO_VERIF
+    SMT_EXPORT void theory::record(std::vector<lit> cls) noexcept
+    {
+        ORATIO_VERIF_CLAUSE(*sat, cls, verif::THEORY_LEMMA);
+        sat->record(std::move(cls));
+    }
+#else
     SMT_EXPORT void theory::record(std::vector<lit> cls) noexcept { sat->record(std::move(cls)); }
+#endif
 } // namespace smt
